@@ -337,7 +337,7 @@ fn join_plans(a: &str, b: &str) -> String {
 }
 
 fn shim(seed: u64, plan: &str) -> Option<ShimCfg> {
-    Some(ShimCfg { seed, plan: plan.to_string(), clock: None, junk: 0, budget: None })
+    Some(ShimCfg { seed, plan: plan.to_string(), ..Default::default() })
 }
 
 /// Runs a source through `fml run` or through parse | compile | execute.
